@@ -15,6 +15,7 @@ CONSTANTS
   RangeSeq <- R6
   LimitSeq <- L4
   ShardCounts = {}
+  EmptyName = TRUE
   Mode = "mc"
   EmitMode = "all"
 VIEW View
